@@ -353,6 +353,12 @@ class IffFile:
 class IffID3(ID3):
     """A generic IFF file with ID3v2 tags"""
 
+    def load(self, *args, **kwargs):
+        # There is no ID3v1 tag in here: the end of the file is not the
+        # end of the tag's container, don't go looking for "TAG" there.
+        kwargs.setdefault("load_v1", False)
+        super(IffID3, self).load(*args, **kwargs)
+
     def _load_file(self, fileobj):
         raise error("Not implemented")
 
